@@ -37,7 +37,7 @@ RULE = ("valid cases: G-DAG N<=2 (every base pipeline and every single decoratio
         "combinations, each also with None as one of the two defaults), MapSpec naming a non-parameter (replace each input / add one), MapSpec missing an output, MapSpec output renamed / swapped "
         "(each given on the PipeFunc and as (PipeFunc, mapspec) to Pipeline), inconsistent axes in one consumer (rename / swap / rank-1 / rank+1 of "
         "each indexed array named by >= 2 MapSpecs), bound parameter in a MapSpec; Pipeline-level construction faults in both listing orders. "
-        "run-time: dropped input (each root; run(): per requested output, parameters also listed in reverse order), surplus input, zipped axis "
+        "run-time: dropped input (each root; run(): per requested output, parameters also listed in reverse order), surplus input (an unknown name, and the name of a function output), zipped axis "
         "resized +-1 (each root x axis; also with the resized root carrying a well-formed default), rank changed (list->2-D ndarray, scalar, 2-D ndarray->nested list / 1-D / 3-D), unknown storage (string, "
         "dict default, dict per output), executor with parallel=False (object, dict default, dict per output), fixed_indices (unknown axis, index = "
         "size on every root axis, every reduced axis); each run-time map fault x start state {no folder, folder holding a previous COMPLETE run "
@@ -299,6 +299,9 @@ def dag_runtime_faults(spec):
             yield "drop-input", {"api": "map", "p": p, "start": start}
     for start in _starts("surplus-input"):
         yield "surplus-input", {"api": "map", "start": start, "value": "scalar"}
+        # a surplus input that carries the NAME OF A FUNCTION OUTPUT (no auto_subpipeline): the pipeline knows the name, but it is
+        # no root argument - accepting it would silently feed the consumers the supplied value
+        yield "surplus-input", {"api": "map", "start": start, "value": "scalar", "name": "first-output"}
     for form in _storage_forms(spec):
         for start in _starts("storage-unknown"):
             yield "storage-unknown", {"api": "map", "start": start, "form": form}
@@ -371,8 +374,14 @@ def apply_dag_runtime(spec, op, pos):
         inputs.pop(pos["p"])
         call["why"] = f"root {pos['p']!r} has no default and is not given"
     elif op == "surplus-input":
-        inputs[SURPLUS] = "<zz>"
-        call["why"] = f"{SURPLUS!r} is no root of the pipeline"
+        if pos.get("name") == "first-output":
+            o = spec["funcs"][0]["outs"][0]
+            inputs[o] = "<zz>"
+            call["why"] = f"{o!r} is an output of the pipeline, not a root argument (no auto_subpipeline)"
+            call["pred"] = {"surplus_name": "output"}
+        else:
+            inputs[SURPLUS] = "<zz>"
+            call["why"] = f"{SURPLUS!r} is no root of the pipeline"
     elif op == "storage-unknown":
         call["map_kw"]["storage"] = pos["form"]
         call["sub"] = pos["form"].split(":")[0]
@@ -607,6 +616,7 @@ def map_runtime_faults(spec):
         yield from each("drop-input", {"p": p})
     for value in ("scalar", "list"):
         yield from each("surplus-input", {"value": value})
+    yield from each("surplus-input", {"value": "list", "name": "first-output"})
     for r, axes in spec["roots"].items():
         for d in range(len(axes)):
             for delta in (1, -1):
@@ -658,8 +668,13 @@ def apply_map_runtime(spec, op, pos):
         inputs.pop(pos["p"])
         want, call["sub"], call["why"] = "missing", "map", f"root {pos['p']!r} is not given"
     elif op == "surplus-input":
-        inputs[SURPLUS] = "<zz>" if pos["value"] == "scalar" else ["zz0", "zz1"]
-        want, call["sub"], call["why"] = "surplus", pos["value"], f"{SURPLUS!r} is no root of the pipeline"
+        if pos.get("name") == "first-output":
+            o = spec["funcs"][0]["outs"][0]
+            inputs[o] = ["zz0", "zz1"]
+            want, call["sub"], call["why"] = "surplus", "output-name", f"{o!r} is an output of the pipeline, not a root argument (no auto_subpipeline)"
+        else:
+            inputs[SURPLUS] = "<zz>" if pos["value"] == "scalar" else ["zz0", "zz1"]
+            want, call["sub"], call["why"] = "surplus", pos["value"], f"{SURPLUS!r} is no root of the pipeline"
     elif op == "zip-resize":
         inputs[pos["r"]] = _resize(inputs[pos["r"]], pos["d"], pos["delta"])
         want, call["sub"] = "zip", ("grow" if pos["delta"] > 0 else "shrink")
